@@ -4,7 +4,7 @@ applies one benign twin to a scratch copy of /repo, optionally runs the pinned t
 and runs every property's check on it, printing what differs from the unchanged tree."""
 import ast, os, sys, shutil, subprocess, tempfile
 from concurrent.futures import ProcessPoolExecutor
-sys.path.insert(0, "/verif")
+sys.path.insert(0, os.path.dirname(os.path.dirname(os.path.abspath(__file__))))
 from verif.selftest import mutants
 
 
